@@ -540,8 +540,16 @@ def run_check(modname, tier, seed, replay=None, jobs=None):
     if len(shards) == 1 or jobs == 1:
         results = [_shard_entry((modname, s)) for s in shards]
     else:
-        with mp.Pool(min(jobs, len(shards))) as pool:
-            results = pool.map(_shard_entry, [(modname, s) for s in shards], chunksize=1)
+        # a worker that dies (OOM, segfault) must not hang the run: BrokenProcessPool -> harness failure
+        import concurrent.futures as cf
+        results = []
+        try:
+            with cf.ProcessPoolExecutor(max_workers=min(jobs, len(shards))) as ex:
+                for r in ex.map(_shard_entry, [(modname, s) for s in shards]):
+                    results.append(r)
+        except cf.process.BrokenProcessPool as e:
+            print("HARNESS-FAILURE: a shard process died (%s)" % e)
+            return 2
     agg = new_result()
     failures = []
     for r in results:
